@@ -640,7 +640,10 @@ def bounds(ex, st, n, i, node, what="index"):
         if not (0 <= i < n):
             ex.oblig("index_bounds", "L%s" % line, st, z3.BoolVal(False), line=line)
         return
-    ex.oblig("index_bounds", "L%s" % line, st, z3.And(to_z3(i) >= 0, to_z3(i) < to_z3(n)), line=line)
+    inb = z3.And(to_z3(i) >= 0, to_z3(i) < to_z3(n))
+    ex.oblig("index_bounds", "L%s" % line, st, inb, line=line)
+    if not ex.spec_depth and not ex.assume_mode:
+        st.assume(inb)      # execution continues past the access only if it was in bounds (and the obligation demands it)
 
 
 def slice_bounds(n, sl):
@@ -1701,7 +1704,8 @@ def module_attr(ex, st, m, attr):
     return Module(full)
 
 
-CONSTANTS = {"numpy.nan": float("nan"), "numpy.inf": float("inf"), "math.inf": float("inf"), "math.pi": 3.141592653589793}
+CONSTANTS = {"numpy.nan": float("nan"), "numpy.inf": float("inf"), "math.inf": float("inf"), "math.pi": 3.141592653589793,
+             "sys.float_info.epsilon": 2.220446049250313e-16}
 
 
 def front_load(rel):
